@@ -90,6 +90,8 @@ def same_value(model_tok: str, impl, mode: str = "exact") -> bool:
         except Exception:
             return False
     # m is an exact rational
+    if isinstance(impl, (int, np.integer)) and not isinstance(impl, (bool, np.bool_)) and abs(int(impl)) > 2**53:
+        return Fraction(int(impl)) == m      # beyond float precision (e.g. the int64 identity of min/max): compare exactly
     try:
         f = float(impl)
     except Exception:
